@@ -28,8 +28,8 @@ func main() {
 		err = genSchema(os.Args[2], os.Args[3])
 	case "tags":
 		err = genTags(os.Args[2], os.Args[3])
-	case "gofn":
-		err = genGoFn(os.Args[2], os.Args[3])
+	case "gofn", "gofn-math", "gofn-mp", "gofn-httpgun", "gofn-istep", "gofn-waiter":
+		err = genGoFn(os.Args[1], os.Args[2], os.Args[3])
 	default:
 		err = fmt.Errorf("unknown translator %q", os.Args[1])
 	}
